@@ -137,7 +137,7 @@ def inert_part(rep, ctx, hz, oracle, pool, rng):
     from checks.c03 import pick_ps, content_picker
     cats = sorted(oracle.cats)
     pairs = []
-    n = 150 if ctx.tier == 'quick' else 900
+    n = 150 if ctx.tier == 'quick' else 2000
     for k in range(n):
         cat = cats[k % len(cats)]
         ps = pick_ps(rng, oracle, cat)
